@@ -45,19 +45,19 @@ T = {
  'C14': ('proof', 'sibling polynomial relations between extracted kernels (substitution, homomorphism, permutation, weights)',
          'kpanel[alpha=0]==cpanel, cpanel[1/r=0]==plate, plate_w==(w,w) of plate, numeric@0==analytic integrand, x<->y exchange automorphism, similarity weights; eigenvalue equality as numbers is NOT decided.',
          'C10', '3/C14'),
- 'C16': ('other', 'homogeneity degree analysis, Rat substitution identities, loop-scope rule',
-         'named clauses only: kG linear in (Fc,P,T), iso short-cut == general model under isotropic substitution, symmetrisation path, loop-scope rule (known finding F-C16-1). Energy consistency of the closed-form shell integrals is NOT decided.',
-         'trigonometric calls opaque', '3/C16'),
- 'C17': ('other', 'call-binding agreement, composition rule, prange effect analysis',
-         'named clauses only: composition of kT and fint, configuration agreement of the four kernel calls, thread-independence structure of integratev. The Jacobian identity inside the generated nonlinear modules is NOT decided.',
-         '', '3/C17'),
+ 'C16': ('proof', 'symbolic evaluation of the shell kernels in a polynomial ring with reciprocal and sign atoms and a Fourier normal form: exact strain-energy Hessian built from the package\'s own cfstrain functions (R16.7), cone kernels at zero angle telescoped over the sections against the cylinder kernels (R16.4), isotropic substitution (R16.2); homogeneity degree analysis (R16.1); loop-scope and stale-iteration-read rules (R16.5); call binding / CFG rules of the orchestration (R16.3)',
+         'for the eight classical models k0 (cone and cylinder kernels) is proved equal, entry by entry and case by case, to the second derivative of the energy of the package\'s own linear strain field with the section radius frozen as the kernels freeze it (hence symmetric PSD); cone kernels at alpha = 0 proved equal to the cylinder kernels for k0 and kG0 of all 19 built linear modules (known finding F-C16-4: five FSDT modules differ); iso short-cuts == general models; kG linear in (Fc,P,T) and the load split adds up. NOT decided: PSD of the first-order-shear models; the limit of the section quadrature.',
+         'source-level proof; the built .so files are not examined; amplitude 2 is always prescribed and left out', '3/C16'),
+ 'C17': ('proof', 'symbolic differentiation of the internal-force integrand (state scalars as linear forms, chain rule with linear-form matching) against the three tangent integrands read by walking the (row, col) writer and the value writer in lock step (R17.5); order analysis (R17.6); call-binding agreement, composition rule, prange effect analysis (R17.1-R17.4)',
+         'for the ten general non-linear modules the residual d fint_A/d c_B - (k0L + k0L^T + kLL + kG)_AB is proved to be the zero polynomial at integrand level for every amplitude pair (known finding F-C17-2: the two FSDT modules fail), fint(0) = 0 and fint_NL = O(|c|^2) for the perfect shell; composition of kT and fint, configuration agreement of the four kernel calls, thread-independence structure of integratev. NOT decided: accuracy of the numerical integration, bit-identical sums across thread counts, the isotropic short-cut non-linear modules beyond the provenance of kG and fint.',
+         'integrand-level identity; amplitude 2 (always prescribed) left out', '3/C17'),
  'C18': ('other', 'linear-form agreement fg<->fuvw, degree-in-inc analysis, Rat identities for geometry, inverse bookkeeping',
          'named clauses only (see DESIGN.md C18).', '', '3/C18'),
  'C19': ('proof', 'polynomial normal forms modulo integration by parts; mirror parity; Rat identities; call binding',
          'fkAx/fkAy/fcA proved equal to the piston-theory forms; parity of each term vs the mirror applied (known finding F-C19-1); Mach formulas as identities; call binding and coefficient forwarding (known findings F-C19-2/3).',
          'C10; precondition w restrained on flow edges', '3/C19'),
- 'C20': ('other', 'typestate derive-before-read over CFG + call graph; effect analysis on caller inputs; prange disjointness',
-         'derive-before-read of lazily derived attributes for every public entry point; caller inputs not mutated; idempotent in-place scalings; thread-independence structure.',
+ 'C20': ('other', 'typestate derive-before-read over CFG + call graph; effect analysis on caller inputs; dominance of accumulator resets; prange disjointness',
+         'derive-before-read of lazily derived attributes for every public entry point; caller inputs not mutated; idempotent in-place scalings; attribute accumulators reset in the same call; thread-independence structure.',
          'bit-identical floating point sums across thread counts NOT decided', '3/C20'),
 }
 NA = {'C15': 'monotone convergence / upper-bound statements are about eigenvalues of matrix sequences; no sound static argument in reach bounds them. Structural ingredients (nested trial space, exact energy Hessians, exact basis integrals) are decided under C02-C04, C10.'}
